@@ -468,6 +468,9 @@ def r4(k: Kit) -> None:
             if name == 're.compile':
                 got.append(args)
                 return Obj('PAT')
+            if name == 're.escape' and args and \
+                    isinstance(args[0], (bytes, str)):
+                return re.escape(args[0])
             return Obj('x')
         frag = []
         for st in fi.node.body:
